@@ -136,6 +136,7 @@ def run_unit(args):
                             try:
                                 bad, what = replay.replay(case, values)
                                 mm["violated"] = [b for b in (bad or []) if prop in case.props_of(_base(b))]
+                                mm["violated_other"] = [b for b in (bad or []) if prop not in case.props_of(_base(b))]
                                 mm["real"] = what
                             except Exception as e:  # noqa: BLE001
                                 mm["real"] = "replay failed: %r" % (e,)
@@ -298,6 +299,11 @@ def check_property(prop, tier="quick", seed=0):
                     lines.append("VIOLATION property=%s replay=%s" % (prop, path))
                     lines.append("  conformance run %s: real code violates %s on %s" % (r["case"], mm["violated"], mm["values"]))
                     violations += 1
+                    continue
+                if mm.get("violated_other"):
+                    # the real run violates a clause of this contract that belongs to another property: not a
+                    # defect of the model, and that property's check reports it
+                    lines.append("  note: %s: the real code violates %s (clauses of other properties) on %s" % (r["case"], mm["violated_other"], str(mm["values"])[:160]))
                     continue
                 checker_errors.append("conformance mismatch (model vs numpy) in %s on %s: %s" % (r["case"], mm["values"], mm["what"]))
         for o in r["obligations"]:
